@@ -77,6 +77,9 @@ type Env struct {
 	deferredOps []deferred
 	expirePass  bool // the client is running Transaction.Expire itself
 
+	storing      *simrt.Task // task inside SimStore.Store
+	storingEpoch int
+
 	sharedSess []lungo.ISession
 	closing    bool // Engine.Close has been invoked by the plan
 }
@@ -163,6 +166,14 @@ func (s *SimStore) Load() (*lungo.Catalog, error) {
 func (s *SimStore) Store(c *lungo.Catalog) error {
 	e := s.env
 	simrt.Yield("store:store")
+	// commits are serialised by the writer slot and the engine lock: two tasks inside Store at once
+	// are two writers (the later one would overwrite the earlier one's catalog)
+	if cur := e.sim.Current(); e.storing != nil && e.storing != cur && e.storingEpoch == e.epoch {
+		e.violate(violation("C16", "two-writers", "concurrent-commit", fmt.Sprintf("%s entered Store while %s is still inside it", taskName(cur), taskName(e.storing))))
+	} else {
+		e.storing, e.storingEpoch = cur, e.epoch
+		defer func() { e.storing = nil }()
+	}
 	n := e.storeCalls
 	e.storeCalls++
 	wallIn := time.Now().Add(e.sim.WallOffset())
@@ -202,6 +213,13 @@ func (s *SimStore) Store(c *lungo.Catalog) error {
 }
 
 // ---- engine life cycle ----
+
+func taskName(t *simrt.Task) string {
+	if t == nil {
+		return "<scheduler>"
+	}
+	return t.Name
+}
 
 func errnoOf(name string) syscall.Errno {
 	switch name {
